@@ -46,6 +46,8 @@ def build_corpus(tier, rng):
                         ms.append(msg("message %d \"q\"" % n))
                     if mode in (2, 3):
                         ms.append(det("detailed %d\nline" % n))
+                    if n % 2:
+                        ms.reverse()          # the ORDER in which message / detailed_message are written means nothing
                     if i % 3 == 1:
                         ms.append(ser("ser-%d" % n))
                     if i % 5 == 2:
@@ -69,9 +71,9 @@ def build_corpus(tier, rng):
         for v in it.variants:
             r = rng.random()
             if r < 0.5:
-                v.metas.append(msg("m " + v.ident))
+                v.metas.insert(rng.randint(0, len(v.metas)), msg("m " + v.ident))
             if rng.random() < 0.4:
-                v.metas.append(det("d " + v.ident))
+                v.metas.insert(rng.randint(0, len(v.metas)), det("d " + v.ident))
             for d in rng.choice(DOCS):
                 v.metas.insert(rng.randint(0, len(v.metas)), doc(d))
         items.append(("random", it))
